@@ -15,7 +15,10 @@ BY_METHOD = {}         # method / function simple name -> [Contract]
 
 
 class Loop:
-  def __init__(self, inv, mod=None, fields=None, ghost=None):
+  def __init__(self, inv, mod=None, fields=None, ghost=None, hints=None, pivots=None, facts=None):
+    self.facts = facts      # Ctx -> [('unfold'|'lemma', name, term)]: instances, see Contract
+    self.pivots = pivots    # Ctx -> [Int terms]: split points for quantified goals
+    self.hints = hints      # Ctx -> [z3 Bool]: intermediate facts, each proved, then assumed
     self.inv = inv          # Ctx -> z3 Bool
     self.mod = mod          # Ctx -> [Int ref terms] whose container rows may change; None = all
     self.fields = fields    # field names that may be written (None = syntactic)
@@ -27,7 +30,8 @@ class Contract:
                raises=None, raises_post=None, mod=None, writes=(), result='val',
                loops=None, kind='contract', allocates=True, props=(), params=None,
                calls=None, note='', defaults=None, may_raise=(), abstract=False,
-               types=None, lemmas=None, defs=None):
+               types=None, lemmas=None, defs=None, hints=None, cases=None, recdefs=None,
+               facts=None, entry_facts=None):
     self.id = cid
     self.file = file
     self.qualname = qualname
@@ -51,6 +55,16 @@ class Contract:
     self.types = types or {}
     self.lemmas = lemmas         # Ctx -> [(name, statement, [proof steps])]
     self.defs = defs             # Ctx -> z3 Bool: definitional axioms of spec functions
+    # recursive spec functions and lemmas are never given to the solver as quantified axioms
+    # (matching loops); they are used through explicit instances only:
+    #   recdefs(c) -> {name: (base fact, unfold(i) -> equation for f(i+1))}
+    #   lemmas(c)  -> [(name, P(i), lo, [recdef names unfolded in the induction step])]
+    #   facts / entry_facts / Loop.facts -> [('unfold'|'lemma', name, term)]
+    self.recdefs = recdefs
+    self.facts = facts           # Ctx(exit) -> instances available at every exit
+    self.entry_facts = entry_facts
+    self.cases = cases           # Ctx(pre) -> [z3 Bool atoms]: exhaustive case split for the solver
+    self.hints = hints           # Ctx(post) -> [z3 Bool]: proved, then assumed, at every exit
     REGISTRY[cid] = self
     BY_METHOD.setdefault(qualname.split('.')[-1], []).append(self)
 
